@@ -254,22 +254,38 @@ pub fn fine_run(a: &[String]) -> i32 {
     install_hook();
     let cap: u64 = std::env::var("JLMC_FINE_CAP").ok().and_then(|s| s.parse().ok()).unwrap_or(200_000);
     let mut results = Vec::new();
-    for (i, (name, bodies)) in fine_configs(thorough).into_iter().enumerate() {
-        if i % nshards != shard {
-            continue;
+    // units of work: (configuration, cold start?) - the cold units of a shard run first, while this
+    // process has evaluated nothing itself (a cold pass only forks; its children do the evaluating)
+    let cfgs = fine_configs(thorough);
+    // with few configurations (quick tier) a unit is further split by first-level branch so that all
+    // shards have work
+    let mut units: Vec<(usize, bool, usize, usize)> = Vec::new();
+    for cold in [true, false] {
+        let parts = if cfgs.len() * 2 >= nshards * 4 { 1 } else if cold { 4 } else { 2 };
+        for i in 0..cfgs.len() {
+            for part in 0..parts {
+                units.push((i, cold, part, parts));
+            }
         }
+    }
+    let mine: Vec<(usize, bool, usize, usize)> = units.iter().enumerate().filter(|(u, _)| u % nshards == shard).map(|(_, x)| *x).collect();
+    for (i, cold, part, parts) in mine {
+        let (name, bodies) = &cfgs[i];
+        PART.0.store(part, std::sync::atomic::Ordering::Relaxed);
+        PART.1.store(parts, std::sync::atomic::Ordering::Relaxed);
         FINE_ON.store(true, std::sync::atomic::Ordering::SeqCst);
         let t0 = std::time::Instant::now();
-        let mut st0 = explore(&bodies, 0, cap, &mut |_| {});
-        let st = explore(&bodies, 1, cap, &mut |_| {});
+        let mut st0 = explore_mode(bodies, 0, cap, cold, &mut |_| {});
+        let st = explore_mode(bodies, 1, cap, cold, &mut |_| {});
         FINE_ON.store(false, std::sync::atomic::Ordering::SeqCst);
+        PART.1.store(1, std::sync::atomic::Ordering::Relaxed);
         st0.violations.extend(st.violations.iter().cloned());
         let threads: Vec<Value> = bodies.iter().map(|b| Value::Array(b.iter().map(|c| json!({"rule": *c.rule, "data": *c.data})).collect())).collect();
         results.push(json!({
-            "config": name, "schedules": st.schedules + st0.schedules, "points_total": st.points + st0.points, "max_points": st.max_points,
-            "capped": st.capped, "replay_divergences": st.replay_divergences + st0.replay_divergences, "wall_s": t0.elapsed().as_secs_f64(),
+            "config": format!("{}{}", if cold { "cold:" } else { "" }, name), "part": format!("{}/{}", part + 1, parts), "schedules": st.schedules + st0.schedules, "points_total": st.points + st0.points, "max_points": st.max_points,
+            "capped": st.capped || st0.capped, "replay_divergences": st.replay_divergences + st0.replay_divergences, "wall_s": t0.elapsed().as_secs_f64(),
             "threads": threads,
-            "violations": st0.violations.iter().take(3).map(|(ch, e, a)| json!({"schedule": ch, "expected": e, "actual": a})).collect::<Vec<_>>(),
+            "violations": st0.violations.iter().take(3).map(|(ch, e, a)| json!({"schedule": ch, "expected": e, "actual": a, "cold": cold})).collect::<Vec<_>>(),
         }));
     }
     let _ = std::fs::write(&out, json!({"shard": shard, "results": results}).to_string());
@@ -293,6 +309,9 @@ pub struct Execution {
     pub diverged: bool,
     pub hook_sites: u64,
     pub inputs_intact: bool,
+    /// every call once more, sequentially, in the same process after all threads have finished:
+    /// whatever the interleaving left behind in process-wide state shows here
+    pub aftermath: Vec<Vec<Obs>>,
 }
 
 /// Run the thread bodies once under the schedule `prefix` (default choices afterwards).
@@ -422,7 +441,141 @@ pub fn run_once(bodies: &[Vec<Call>], prefix: &[usize]) -> Execution {
             }
         }
     }
-    Execution { points: st.points.clone(), results, stdout, diverged: st.diverged, hook_sites: st.hook_sites, inputs_intact: intact }
+    let points = st.points.clone();
+    let (diverged, hook_sites) = (st.diverged, st.hook_sites);
+    drop(st);
+    // aftermath: no scheduler is installed any more, the hook is a no-op for this thread
+    let mut aftermath = Vec::new();
+    if !deadlocked {
+        let fine_was = FINE_ON.swap(false, std::sync::atomic::Ordering::SeqCst);
+        for b in bodies {
+            aftermath.push(b.iter().map(|c| exec::apply(&c.rule, &c.data)).collect::<Vec<Obs>>());
+        }
+        FINE_ON.store(fine_was, std::sync::atomic::Ordering::SeqCst);
+    }
+    Execution { points, results, stdout, diverged, hook_sites, inputs_intact: intact, aftermath }
+}
+
+fn obs_json(o: &Obs) -> Value {
+    match &o.out {
+        Outcome::Ok(v) => json!({"ok": v.to_string(), "log": o.log}),
+        Outcome::Err(e) => json!({"err": e, "log": o.log}),
+        Outcome::Panic(m, l) => json!({"panic": [m, l], "log": o.log}),
+    }
+}
+
+fn obs_from(v: &Value) -> Obs {
+    let log: Vec<String> = v["log"].as_array().map(|a| a.iter().map(|x| x.as_str().unwrap_or("").to_string()).collect()).unwrap_or_default();
+    let out = if let Some(x) = v.get("ok") {
+        // the text is the identity of the value (number spelling included); it is parsed back only for display
+        Outcome::Ok(Value::String(format!("\u{1}{}", x.as_str().unwrap_or(""))))
+    } else if let Some(e) = v.get("err") {
+        Outcome::Err(e.as_str().unwrap_or("").to_string())
+    } else {
+        Outcome::Panic(v["panic"][0].as_str().unwrap_or("").into(), v["panic"][1].as_str().unwrap_or("").into())
+    };
+    Obs { out, log }
+}
+
+/// Run `f` in a forked child of this process and return what it wrote (None: the child died).
+fn in_child(f: &dyn Fn() -> String) -> Option<String> {
+    unsafe {
+        let mut fds = [0i32; 2];
+        if libc::pipe(fds.as_mut_ptr()) != 0 {
+            return None;
+        }
+        let pid = libc::fork();
+        if pid < 0 {
+            return None;
+        }
+        if pid == 0 {
+            libc::close(fds[0]);
+            libc::prctl(libc::PR_SET_PDEATHSIG, libc::SIGKILL);
+            let msg = std::panic::catch_unwind(std::panic::AssertUnwindSafe(|| f())).unwrap_or_default();
+            let b = msg.as_bytes();
+            let mut off = 0;
+            while off < b.len() {
+                let n = libc::write(fds[1], b[off..].as_ptr() as *const libc::c_void, b.len() - off);
+                if n <= 0 {
+                    break;
+                }
+                off += n as usize;
+            }
+            libc::_exit(0);
+        }
+        libc::close(fds[1]);
+        let mut buf = Vec::new();
+        let mut chunk = [0u8; 65536];
+        loop {
+            let n = libc::read(fds[0], chunk.as_mut_ptr() as *mut libc::c_void, chunk.len());
+            if n <= 0 {
+                break;
+            }
+            buf.extend_from_slice(&chunk[..n as usize]);
+        }
+        libc::close(fds[0]);
+        let mut st = 0;
+        libc::waitpid(pid, &mut st, 0);
+        if !(libc::WIFEXITED(st) && libc::WEXITSTATUS(st) == 0) || buf.is_empty() {
+            return None;
+        }
+        String::from_utf8(buf).ok()
+    }
+}
+
+/// Cold start: the same execution in a forked child of a process that has never evaluated anything,
+/// so that every schedule meets lazily built process-wide state in its initial condition (an
+/// interleaving of two *first* uses exists only once per process otherwise).
+pub fn run_once_cold(bodies: &[Vec<Call>], prefix: &[usize]) -> Option<Execution> {
+    let txt = in_child(&|| {
+        let e = run_once(bodies, prefix);
+        json!({
+            "points": e.points.iter().map(|p| json!([p.enabled, p.chosen, p.running])).collect::<Vec<_>>(),
+            "results": e.results.iter().map(|t| t.iter().map(obs_json).collect::<Vec<_>>()).collect::<Vec<_>>(),
+            "aftermath": e.aftermath.iter().map(|t| t.iter().map(obs_json).collect::<Vec<_>>()).collect::<Vec<_>>(),
+            "stdout": e.stdout, "diverged": e.diverged, "hook_sites": e.hook_sites, "intact": e.inputs_intact,
+        })
+        .to_string()
+    })?;
+    let v: Value = serde_json::from_str(&txt).ok()?;
+    let obs2 = |k: &str| -> Vec<Vec<Obs>> { v[k].as_array().map(|ts| ts.iter().map(|t| t.as_array().map(|os| os.iter().map(obs_from).collect()).unwrap_or_default()).collect()).unwrap_or_default() };
+    Some(Execution {
+        points: v["points"]
+            .as_array()?
+            .iter()
+            .map(|p| Point {
+                enabled: p[0].as_array().map(|a| a.iter().map(|x| x.as_u64().unwrap_or(0) as usize).collect()).unwrap_or_default(),
+                chosen: p[1].as_u64().unwrap_or(0) as usize,
+                running: p[2].as_u64().map(|x| x as usize),
+            })
+            .collect(),
+        results: obs2("results"),
+        aftermath: obs2("aftermath"),
+        stdout: v["stdout"].as_array().map(|a| a.iter().map(|x| x.as_str().unwrap_or("").to_string()).collect()).unwrap_or_default(),
+        diverged: v["diverged"].as_bool().unwrap_or(true),
+        hook_sites: v["hook_sites"].as_u64().unwrap_or(0),
+        inputs_intact: v["intact"].as_bool().unwrap_or(false),
+    })
+}
+
+/// Isolated outcomes for the cold mode: each call as the first call of a fresh child, in the same
+/// textual form as the results of `run_once_cold`.
+fn isolated_cold(bodies: &[Vec<Call>]) -> Option<Vec<Vec<Obs>>> {
+    let mut out = Vec::new();
+    for b in bodies {
+        let mut t = Vec::new();
+        for c in b {
+            let txt = in_child(&|| {
+                let fine_was = FINE_ON.swap(false, std::sync::atomic::Ordering::SeqCst);
+                let o = exec::apply(&c.rule, &c.data);
+                FINE_ON.store(fine_was, std::sync::atomic::Ordering::SeqCst);
+                obs_json(&o).to_string()
+            })?;
+            t.push(obs_from(&serde_json::from_str::<Value>(&txt).ok()?));
+        }
+        out.push(t);
+    }
+    Some(out)
 }
 
 fn preemptions(points: &[Point]) -> usize {
@@ -464,6 +617,16 @@ fn is_subsequence(small: &[String], big: &[String]) -> bool {
     i == small.len()
 }
 
+/// Display of an observation (cold-mode observations carry the value as marked text).
+fn pretty(o: &Obs) -> String {
+    if let Outcome::Ok(Value::String(t)) = &o.out {
+        if let Some(rest) = t.strip_prefix('\u{1}') {
+            return if o.log.is_empty() { format!("Ok({})", rest) } else { format!("Ok({}) log={:?}", rest, o.log) };
+        }
+    }
+    o.show()
+}
+
 /// Oracle for one execution.
 fn judge(bodies: &[Vec<Call>], iso: &[Vec<Obs>], e: &Execution) -> Option<(String, String)> {
     if e.diverged {
@@ -478,7 +641,15 @@ fn judge(bodies: &[Vec<Call>], iso: &[Vec<Obs>], e: &Execution) -> Option<(Strin
         }
         for (k, r) in res.iter().enumerate() {
             if !same_out(&r.out, &iso[t][k].out) {
-                return Some((format!("thread {} call {} as in isolation: {}", t, k, iso[t][k].show()), r.show()));
+                return Some((format!("thread {} call {} as in isolation: {}", t, k, pretty(&iso[t][k])), pretty(r)));
+            }
+        }
+    }
+    // aftermath: the same calls once more after the threads are gone
+    for (t, res) in e.aftermath.iter().enumerate() {
+        for (k, r) in res.iter().enumerate() {
+            if !same_out(&r.out, &iso[t][k].out) || r.log != iso[t][k].log {
+                return Some((format!("after the concurrent phase, thread {}'s call {} repeated sequentially is as in isolation: {}", t, k, pretty(&iso[t][k])), pretty(r)));
             }
         }
     }
@@ -498,7 +669,39 @@ fn judge(bodies: &[Vec<Call>], iso: &[Vec<Obs>], e: &Execution) -> Option<(Strin
 }
 
 pub fn explore(bodies: &[Vec<Call>], bound: usize, cap: u64, progress: &mut dyn FnMut(u64)) -> Stats {
-    let iso: Vec<Vec<Obs>> = bodies.iter().map(|b| b.iter().map(isolated).collect()).collect();
+    explore_mode(bodies, bound, cap, false, progress)
+}
+
+/// (part, parts): this process explores only the branches at first-level points i with i % parts == part.
+static PART: (std::sync::atomic::AtomicUsize, std::sync::atomic::AtomicUsize) = (std::sync::atomic::AtomicUsize::new(0), std::sync::atomic::AtomicUsize::new(1));
+
+/// `cold`: every execution (and every isolated reference call) runs in a forked child of this
+/// process, which itself never evaluates anything: each schedule starts from the initial process state.
+pub fn explore_mode(bodies: &[Vec<Call>], bound: usize, cap: u64, cold: bool, progress: &mut dyn FnMut(u64)) -> Stats {
+    let died = |prefix: &[usize]| -> Execution {
+        // the child did not survive the schedule: a crash of the code under test (or of the machinery; the
+        // replay decides) - reported as an execution whose every result is a panic
+        Execution {
+            points: prefix.iter().map(|&c| Point { enabled: (0..=c).collect(), chosen: c, running: None }).collect(),
+            results: bodies.iter().map(|b| b.iter().map(|_| Obs { out: Outcome::Panic("the process died under this schedule".into(), "-".into()), log: vec![] }).collect()).collect(),
+            stdout: vec![], diverged: false, hook_sites: 0, inputs_intact: true, aftermath: vec![],
+        }
+    };
+    let run = |prefix: &[usize]| -> Execution {
+        if cold { run_once_cold(bodies, prefix).unwrap_or_else(|| died(prefix)) } else { run_once(bodies, prefix) }
+    };
+    let iso: Vec<Vec<Obs>> = if cold {
+        match isolated_cold(bodies) {
+            Some(i) => i,
+            None => {
+                let mut st = Stats { schedules: 0, by_preemptions: vec![0; bound + 1], points: 0, max_points: 0, interleavings: BTreeSet::new(), replays: 0, replay_divergences: 1, violations: Vec::new(), capped: false };
+                st.replay_divergences = 1;
+                return st;
+            }
+        }
+    } else {
+        bodies.iter().map(|b| b.iter().map(isolated).collect()).collect()
+    };
     let mut st = Stats {
         schedules: 0,
         by_preemptions: vec![0; bound + 1],
@@ -516,7 +719,7 @@ pub fn explore(bodies: &[Vec<Call>], bound: usize, cap: u64, progress: &mut dyn 
             st.capped = true;
             break;
         }
-        let e = run_once(bodies, &prefix);
+        let e = run(&prefix);
         st.schedules += 1;
         if st.schedules % 20 == 0 {
             progress(st.schedules);
@@ -535,7 +738,7 @@ pub fn explore(bodies: &[Vec<Call>], bound: usize, cap: u64, progress: &mut dyn 
             // involved the blocked-thread watchdog makes timing matter)
             let mut reproduced = false;
             for _ in 0..3 {
-                let again = run_once(bodies, &choices);
+                let again = run(&choices);
                 if judge(bodies, &iso, &again).is_some() {
                     reproduced = true;
                     break;
@@ -548,7 +751,7 @@ pub fn explore(bodies: &[Vec<Call>], bound: usize, cap: u64, progress: &mut dyn 
             }
         } else if st.schedules % 100 == 0 {
             let choices: Vec<usize> = e.points.iter().map(|p| p.enabled.iter().position(|&x| x == p.chosen).unwrap_or(0)).collect();
-            let again = run_once(bodies, &choices);
+            let again = run(&choices);
             st.replays += 1;
             let same = again.stdout == e.stdout
                 && again.points.len() == e.points.len()
@@ -562,7 +765,10 @@ pub fn explore(bodies: &[Vec<Call>], bound: usize, cap: u64, progress: &mut dyn 
         let choices: Vec<usize> = e.points.iter().map(|p| p.enabled.iter().position(|&x| x == p.chosen).unwrap_or(0)).collect();
         for (i, p) in e.points.iter().enumerate() {
             let still = p.running.map(|r| p.enabled.contains(&r)).unwrap_or(false);
-            if i >= prefix.len() {
+            // a partitioned exploration keeps only its own share of the first-level branches
+            let (part, parts) = (PART.0.load(std::sync::atomic::Ordering::Relaxed), PART.1.load(std::sync::atomic::Ordering::Relaxed));
+            let mine = !(prefix.is_empty() && parts > 1 && i % parts != part);
+            if i >= prefix.len() && mine {
                 for alt in 1..p.enabled.len() {
                     let c = cost + if still { 1 } else { 0 };
                     if c <= bound {
@@ -721,7 +927,16 @@ pub fn configs(thorough: bool) -> Vec<(String, Vec<Vec<Call>>, usize)> {
 pub fn run(ctx: &mut Ctx) {
     install_hook();
     let cap: u64 = std::env::var("JLMC_SCHED_CAP").ok().and_then(|s| s.parse().ok()).unwrap_or(if ctx.tier_thorough { 400_000 } else { 60_000 });
+    // every configuration twice: warm (all schedules in this process, process-wide state as the
+    // isolated reference calls left it) and cold (every schedule in a forked child of a process that
+    // never evaluated anything: two *first* uses of lazily built state race in every schedule)
+    let mut all: Vec<(String, Vec<Vec<Call>>, usize, bool)> = Vec::new();
+    // (all cold passes first: until the first warm pass this worker process has evaluated nothing itself)
     for (name, bodies, bound) in configs(ctx.tier_thorough) {
+        all.push((format!("cold:{}", name), bodies.clone(), bound, true));
+    }
+    all.extend(configs(ctx.tier_thorough).into_iter().map(|(n, b, bd)| (n, b, bd, false)));
+    for (name, bodies, bound, cold) in all {
         if !ctx.mine() {
             continue;
         }
@@ -732,7 +947,7 @@ pub fn run(ctx: &mut Ctx) {
             let nm = name.clone();
             let st = {
                 let c = &mut *ctx;
-                explore(&bodies, bnd, cap, &mut |n| c.heartbeat(&json!({"schedule_config": nm, "bound": bnd, "schedules_so_far": n})))
+                explore_mode(&bodies, bnd, cap, cold, &mut |n| c.heartbeat(&json!({"schedule_config": nm, "bound": bnd, "schedules_so_far": n})))
             };
             ctx.tick_external(&json!({"schedule_config": name, "bound": bnd, "schedules": st.schedules}));
             let failed = !st.violations.is_empty();
@@ -754,6 +969,9 @@ pub fn run(ctx: &mut Ctx) {
         *ctx.outcomes.entry(format!("schedule-ok")).or_insert(0) += st.schedules - st.violations.len().min(st.schedules as usize) as u64;
         crate::history::add_extra(ctx, &format!("schedules_bound_{}", bound.min(st.by_preemptions.len() - 1)), st.schedules);
         crate::history::add_extra(ctx, "schedules_total", st.schedules);
+        if cold {
+            crate::history::add_extra(ctx, "schedules_cold_start", st.schedules);
+        }
         crate::history::add_extra(ctx, "scheduling_points_total", st.points);
         crate::history::add_extra(ctx, "distinct_stdout_interleavings", st.interleavings.len() as u64);
         crate::history::add_extra(ctx, "replayed_twice", st.replays);
@@ -771,7 +989,7 @@ pub fn run(ctx: &mut Ctx) {
         }
         for (choices, exp, act) in &st.violations {
             let threads: Vec<Value> = bodies.iter().map(|b| Value::Array(b.iter().map(|c| json!({"rule": *c.rule, "data": *c.data})).collect())).collect();
-            ctx.fail("schedule", json!({"config": name, "threads": threads, "schedule": choices}), exp.clone(), act.clone(), None);
+            ctx.fail("schedule", json!({"config": name, "threads": threads, "schedule": choices, "cold": cold}), exp.clone(), act.clone(), None);
         }
         ctx.sample_force(json!({"config": name, "threads": bodies.len(), "preemption_bound": bound, "schedules": st.schedules, "scheduling_points_max": st.max_points, "distinct_stdout_interleavings": st.interleavings.len(),
             "thread_bodies": bodies.iter().map(|b| Value::Array(b.iter().map(|c| json!({"rule": *c.rule, "data": *c.data})).collect())).collect::<Vec<_>>()}));
@@ -854,10 +1072,46 @@ pub fn replay(rec: &Value) -> i32 {
         })
         .unwrap_or_default();
     let choices: Vec<usize> = case["schedule"].as_array().map(|a| a.iter().map(|x| x.as_u64().unwrap_or(0) as usize).collect()).unwrap_or_default();
-    let iso: Vec<Vec<Obs>> = bodies.iter().map(|b| b.iter().map(isolated).collect()).collect();
-    let e = run_once(&bodies, &choices);
+    let cold = case["cold"].as_bool().unwrap_or(false);
+    let fine = case["fine"].as_bool().unwrap_or(false);
+    if fine && !cfg!(feature = "fine") {
+        eprintln!("this schedule was recorded at function-entry granularity; replay it with ./check replay <file> (it builds the instrumented harness)");
+        return 2;
+    }
+    FINE_ON.store(fine, std::sync::atomic::Ordering::SeqCst);
+    let (iso, e) = if cold {
+        let iso = match isolated_cold(&bodies) {
+            Some(i) => i,
+            None => {
+                eprintln!("a reference child died");
+                return 2;
+            }
+        };
+        match run_once_cold(&bodies, &choices) {
+            Some(e) => (iso, e),
+            None => {
+                eprintln!("the process died under the recorded schedule");
+                eprintln!("VIOLATION property=C17 (schedule replay)");
+                return 1;
+            }
+        }
+    } else {
+        let iso: Vec<Vec<Obs>> = bodies.iter().map(|b| b.iter().map(isolated).collect()).collect();
+        (iso, run_once(&bodies, &choices))
+    };
     let verdict = judge(&bodies, &iso, &e);
-    eprintln!("schedule {:?}: {} scheduling points, stdout {:?}", choices, e.points.len(), e.stdout);
+    // run-length form: "0 x 1523, 1, 0 x 730"
+    let mut rl: Vec<String> = Vec::new();
+    let mut i = 0;
+    while i < choices.len() {
+        let mut j = i;
+        while j < choices.len() && choices[j] == choices[i] {
+            j += 1;
+        }
+        rl.push(if j - i > 1 { format!("{} x {}", choices[i], j - i) } else { format!("{}", choices[i]) });
+        i = j;
+    }
+    eprintln!("schedule [{}]{}: {} scheduling points, stdout {:?}", rl.join(", "), if cold { " (cold start)" } else { "" }, e.points.len(), e.stdout);
     match verdict {
         Some((exp, act)) => {
             eprintln!("expected {} / got {}", exp, act);
